@@ -163,7 +163,8 @@ def t_biloc_published(a, c=6.0, eps=1e-3, max_iter=5):
 
 
 def t_bivar_sq(a, centre, c=9.0, eps=1e-3):
-    """biweight midvariance (squared) about `centre`; returns (formula^2, fallback^2, |sum u|)"""
+    """Tukey's biweight midvariance (squared) about `centre`, the MAD fallback (squared), whether any
+    deviation is left under the mask, and the distance of the mask decision |u| < 1 to its boundary"""
     a = np.asarray(a, float)
     d = a - centre
     mad = np.median(np.abs(d))
@@ -173,7 +174,31 @@ def t_bivar_sq(a, centre, c=9.0, eps=1e-3):
     d_, u2 = d[mask], (u ** 2)[mask]
     den = ((1 - u2) * (1 - 5 * u2)).sum() ** 2
     formula = (n * (d_ ** 2 * (1 - u2) ** 4).sum()) / den if den != 0 else float('nan')
-    return float(formula), float((mad * 1.4826) ** 2), float(abs(u[mask].sum()))
+    return float(formula), float((mad * 1.4826) ** 2), bool((d_ != 0).any()), float(np.abs(np.abs(u) - 1).min())
+
+
+def t_bivar_exact(fv, centre, c=9, eps=F(1e-3)):
+    """the same in exact Fractions (small vectors): squared midvariance, or the squared MAD fallback when no
+    deviation is left under the mask"""
+    d = [x - centre for x in fv]
+    mad = t_median([abs(x) for x in d])
+    scale = max(c * mad, eps)
+    m = [(x, x / scale) for x in d if abs(x / scale) < 1]
+    if not any(x != 0 for x, _ in m):
+        return (mad * F(1.4826)) ** 2
+    num = len(m) * sum(x * x * (1 - u * u) ** 4 for x, u in m)
+    den = sum((1 - u * u) * (1 - 5 * u * u) for x, u in m) ** 2
+    return num / den if den != 0 else None
+
+
+def t_biloc_step(fv, i, c=6, eps=F(1e-3)):
+    """one exact step of the biweight location iteration from the (rational) estimate i"""
+    d = [x - i for x in fv]
+    mad = t_median([abs(x) for x in d])
+    scale = max(c * mad, eps)
+    m = [(x, (1 - (x / scale) ** 2) ** 2) for x in d if abs(x / scale) < 1]
+    ws = sum(w for _, w in m)
+    return i if ws == 0 else i + sum(x * w for x, w in m) / ws
 
 
 # ----------------------------------------------------------------------------
@@ -220,7 +245,7 @@ def gen_len(rng, tier, big=400):
         return rng.randint(2, 30)
     if r < 0.9:
         return rng.randint(2, 120)
-    return rng.choice([rng.randint(100, big), big, big - 1])
+    return rng.choice([rng.randint(min(100, big), big), big, big - 1])
 
 
 WKINDS = ['positive', 'dominant', 'zeros', 'equal', 'smallint', 'smallint0', 'nanw']
@@ -277,10 +302,28 @@ def cmp_model(ck, name, case, code, model, amb=None):
 # ----------------------------------------------------------------------------
 # unweighted estimators
 
+def code_iterates(D, v, initial, max_iter):
+    """the iterates of the code's own loop, observed through the public function with max_iter=1"""
+    its, i = [], initial
+    for _ in range(max_iter):
+        r = call(D.biweight_location, v, max_iter=1) if i is None else call(D.biweight_location, v, initial=i, max_iter=1)
+        if isinstance(r, Err) or not finite(r):
+            break
+        its.append(r)
+        i = r
+    return its
+
+
 def check_unweighted(ck, consts):
     from cnvlib import descriptives as D
     rng = ck.rng
-    n_cases = 700 if ck.tier == 'quick' else 16000
+    quick = ck.tier == 'quick'
+    n_cases = 320 if quick else 2600
+    max_iter = consts['biloc_max_iter']
+    # exact rational biweights are expensive (the rationals of an iterate have thousands of bits): the model is
+    # compared on every short vector and on a sample of long ones; the direct oracles run on all of them
+    N_BILOC = 16 if quick else 20
+    N_BIVAR = 10 if quick else 12
     cases = []
     for v in CORPUS.get('vectors', []):
         cases.append(('corpus', [float('nan') if x is None else float(x) for x in v]))
@@ -295,8 +338,7 @@ def check_unweighted(ck, consts):
             v = add_nans(rng, v)
             kind += '+nan'
         cases.append((kind, v))
-    if ck.tier == 'quick':
-        qn_big = set(rng.sample(range(len(cases)), 6))
+    big_sel = set(rng.sample(range(len(cases)), 4 if quick else len(cases) // 100))
     sqrt_pi = float(np.sqrt(np.pi))
     rec = []
     for ci, (kind, v) in enumerate(cases):
@@ -323,6 +365,8 @@ def check_unweighted(ck, consts):
             b = r['biloc']
             if not (float(lo) - TOL * max(1, abs(float(lo))) <= b <= float(hi) + TOL * max(1, abs(float(hi)))):
                 ck.violation('biweight_location outside the data range', case, code=b, expected=[lo, hi], clause='C19_biloc_range')
+            if len(set(cv)) == 1 and b != cv[0]:
+                ck.violation('biweight_location of constant data is not the constant', case, code=b, expected=cv[0], clause='C19_biloc_const')
             bs = call(D.biweight_location, vs)
             if isinstance(bs, Err) or not close(bs, b + c_shift, scale=c_shift):
                 ck.violation('biweight_location does not move with the data', dict(case, shift=c_shift), code=bs,
@@ -331,12 +375,25 @@ def check_unweighted(ck, consts):
                 pub = t_biloc_published(cv)
                 if not close(b, pub):
                     ck.violation('biweight_location differs from the published (Beers et al. 1990) iteration', case,
-                                 code=b, expected=pub, clause='C19_defs', sig='biweight-location-mask-after-transform')
+                                 code=b, expected=pub, clause='C19_defs')
+                if n <= N_BILOC or ci in big_sel:
+                    r['its'] = code_iterates(D, v, None, max_iter)
+                    # every step of the code against one exact (Fraction) step of the published iteration
+                    prev = t_median(fv)
+                    for it in r['its'][:2 if n > 40 else max_iter]:
+                        ex = t_biloc_step(fv, prev)
+                        if not close(it, ex):
+                            ck.violation('a biweight_location step differs from the exact published step', dict(case, start=float(prev)),
+                                         code=it, expected=ex, clause='C19_defs')
+                            break
+                        if abs(ex - prev) <= F(1e-3):
+                            break
+                        prev = fr(it)
         # --- scale estimators
         ests = [('mad', D.median_absolute_deviation, lambda x: F(1.4826) * t_mad(x)),
                 ('iqr', D.interquartile_range, lambda x: t_percentile(x, 75) - t_percentile(x, 25)),
                 ('gapper', D.gapper_scale, lambda x: t_gapper_nopi(x) * F(sqrt_pi))]
-        do_qn = n <= 40 or (ck.tier == 'thorough' and (n <= 90 or ci % 40 == 0)) or (ck.tier == 'quick' and ci in qn_big)
+        do_qn = n <= 40 or (not quick and (n <= 90 or ci % 40 == 0)) or (quick and ci in big_sel)
         if do_qn:
             ests.append(('qn', D.q_n, t_qn))
         for nm, f, tb in ests:
@@ -365,7 +422,7 @@ def check_unweighted(ck, consts):
             if isinstance(ek, Err) or not close(ek, abs(k_scale) * e):
                 ck.violation('%s is not proportional under rescaling' % nm, dict(case, factor=k_scale), code=ek,
                              expected=abs(k_scale) * e, clause='C19_%s_scale' % nm)
-        # --- biweight midvariance: non-negative, zero on constants, published formula about the package's centre
+        # --- biweight midvariance: non-negative, zero on constants, Tukey's formula about the package's centre
         bv = call(D.biweight_midvariance, v)
         r['bivar'] = bv
         if n == 0:
@@ -379,27 +436,34 @@ def check_unweighted(ck, consts):
             if len(set(cv)) == 1 and bv != 0:
                 ck.violation('biweight_midvariance is not zero on constant data', case, code=bv, expected=0, clause='C19_bivar_const')
             if n >= 2 and not isinstance(r['biloc'], Err):
-                formula, fallback, s = t_bivar_sq(cv, r['biloc'])
-                if not (close(bv * bv, formula, scale=0) or close(bv * bv, fallback, scale=0)) and not (
-                        close(bv, math.sqrt(max(formula, 0))) or close(bv, math.sqrt(fallback))):
-                    ck.violation('biweight_midvariance differs from its published formula about the biweight location', case,
-                                 code=bv, expected=[math.sqrt(max(formula, 0)), math.sqrt(fallback)], clause='C19_defs')
-                # shift (holds in exact arithmetic; the symmetric fallback makes it float-sensitive)
-                bvs = call(D.biweight_midvariance, vs)
-                if not isinstance(bvs, Err) and not close(bvs, bv):
-                    if s < 1e-7 or close(bvs * bvs, fallback, scale=0) or close(bvs * bvs, formula, scale=0):
-                        ck.float_ambiguous += 1      # exactly symmetric data: falls back to the MAD on one side only
-                    else:
-                        ck.violation('biweight_midvariance changes when a constant is added (non-symmetric data)',
+                formula, fallback, anydev, mmargin = t_bivar_sq(cv, r['biloc'])
+                exp = formula if anydev else fallback
+                r['bv_margin'] = mmargin
+                if mmargin < 1e-7:
+                    ck.float_ambiguous += 1      # a point sits on the rejection boundary |u| = 1: the count n jumps
+                else:
+                    if not (close(bv * bv, exp, scale=0) or close(bv, math.sqrt(max(exp, 0)))):
+                        ck.violation('biweight_midvariance differs from Tukey\'s formula about the biweight location '
+                                     '(MAD fallback only when no deviation is left)', case,
+                                     code=bv, expected=math.sqrt(max(exp, 0)), clause='C19_defs')
+                    if n <= N_BIVAR:
+                        ex = t_bivar_exact(fv, fr(r['biloc']))
+                        if ex is not None and not close(bv * bv, ex):
+                            ck.violation('biweight_midvariance^2 differs from the exact Tukey formula', case, code=bv * bv,
+                                         expected=ex, clause='C19_defs')
+                    bvs = call(D.biweight_midvariance, vs)
+                    if isinstance(bvs, Err) or not close(bvs, bv):
+                        ck.violation('biweight_midvariance changes when a constant is added',
                                      dict(case, shift=c_shift), code=bvs, expected=bv, clause='C19_bivar_shift')
-        # --- mean squared error
+        # --- mean squared error: from zero by default, from `initial` when given
         r['mse'] = call(D.mean_squared_error, v)
         r['mse0'] = call(D.mean_squared_error, v, initial=0.5)
-        if n >= 2 and not isinstance(r['mse'], Err):
-            mu = sum(fv) / n
-            exp = sum((x - mu) ** 2 for x in fv) / n
-            if not close(r['mse'], exp):
-                ck.violation('mean_squared_error differs from mean((a-mean(a))^2)', case, code=r['mse'], expected=exp, clause='C19_defs')
+        if n >= 2:
+            for key, ref in (('mse', F(0)), ('mse0', F(1, 2))):
+                exp = sum((x - ref) ** 2 for x in fv) / n
+                if isinstance(r[key], Err) or not close(r[key], exp):
+                    ck.violation('mean_squared_error differs from mean((a - %s)^2)' % ref, case, code=r[key], expected=exp,
+                                 clause='C19_defs')
         # --- mode
         r['mode'] = call(D.modal_location, v)
         if n >= 1:
@@ -409,6 +473,8 @@ def check_unweighted(ck, consts):
             else:
                 if not (float(lo) <= m <= float(hi)):
                     ck.violation('modal_location outside the data range', case, code=m, expected=[lo, hi], clause='C19_mode_range')
+                if m not in cv:
+                    ck.violation('modal_location is not one of the values', case, code=m, clause='C19_mode_range')
                 ms = call(D.modal_location, vs)
                 if isinstance(ms, Err) or not close(ms, m + c_shift, scale=c_shift):
                     # the KDE peak may flip between two equally high points under rounding
@@ -419,42 +485,88 @@ def check_unweighted(ck, consts):
                         ck.violation('modal_location does not move with the data', dict(case, shift=c_shift), code=ms,
                                      expected=m + c_shift, clause='C19_mode_shift')
         rec.append((case, cv, r))
+
     # ---- model comparison (batched)
     def batch(entry, inputs):
-        return vlib.model_batch_parallel(entry, inputs)
-    m_biloc = batch('c19_biloc', [[c['a'], None] for c, _, _ in rec])
-    m_bivar = batch('c19_bivar', [[c['a'], None] for c, _, _ in rec])
-    m_mad = batch('c19_mad', [[c['a'], True] for c, _, _ in rec])
-    m_iqr = batch('c19_iqr', [c['a'] for c, _, _ in rec])
-    m_gap = batch('c19_gapper', [[c['a'], sqrt_pi] for c, _, _ in rec])
+        return vlib.model_batch_parallel(entry, inputs) if inputs else []
+    A = [c['a'] for c, _, _ in rec]
+    m_mad = batch('c19_mad', [[a, True] for a in A])
+    m_iqr = batch('c19_iqr', A)
+    m_gap = batch('c19_gapper', [[a, sqrt_pi] for a in A])
     qn_idx = [i for i, (_, _, r) in enumerate(rec) if 'qn' in r]
-    m_qn = dict(zip(qn_idx, batch('c19_qn', [rec[i][0]['a'] for i in qn_idx])))
-    m_mse = batch('c19_mse', [[c['a'], None] for c, _, _ in rec])
-    m_mse0 = batch('c19_mse', [[c['a'], 0.5] for c, _, _ in rec])
-    mode_in = []
-    for c, cv, r in rec:
-        mode_in.append([c['a'], mode_index(cv)])
-    m_mode = batch('c19_mode', mode_in)
-    bad_biloc = []
-    for i, (c, cv, r) in enumerate(rec):
-        if not (isinstance(m_biloc[i], Err) or m_biloc[i] is None) and not isinstance(r['biloc'], Err) \
-                and not vlib.close(r['biloc'], m_biloc[i]):
-            bad_biloc.append(i)
-    margins = dict(zip(bad_biloc, batch('c19_biloc_margin', [[rec[i][0]['a'], None] for i in bad_biloc])))
-    for i, (c, cv, r) in enumerate(rec):
-        cmp_model(ck, 'biweight_location', c, r['biloc'], m_biloc[i],
-                  amb=lambda: i in margins and float(margins[i]) < 1e-7)
-        mb = m_bivar[i]
+    m_qn = dict(zip(qn_idx, batch('c19_qn', [A[i] for i in qn_idx])))
+    m_mse = batch('c19_mse', [[a, None] for a in A])
+    m_mse0 = batch('c19_mse', [[a, 0.5] for a in A])
+    m_mode = batch('c19_mode', [[c['a'], mode_index(cv)] for c, cv, _ in rec])
+    # biweight location: trivial lengths through the function itself, the loop through the chain on the code's iterates
+    triv = [i for i, (_, cv, _) in enumerate(rec) if len(cv) <= 1]
+    m_triv = dict(zip(triv, batch('c19_biloc', [[A[i], None] for i in triv])))
+    chain = [i for i, (_, _, r) in enumerate(rec) if 'its' in r]
+    m_chain = dict(zip(chain, batch('c19_biloc_chain', [[A[i], None, rec[i][2]['its']] for i in chain])))
+    bv_triv = dict(zip(triv, batch('c19_bivar', [[A[i], None] for i in triv])))
+
+    def cmp_chain(name, c, code, its, mc):
+        """mc = [exact result of every step, margin]; its = the code's iterates"""
+        if isinstance(mc, Err):
+            raise RuntimeError('%s: model rejected the request (%s) on %r' % (name, mc.msg, c))
+        steps, margin = mc
+        amb = float(margin) < 1e-7
+        for k, ex in enumerate(steps):
+            if k >= len(its) or not vlib.close(its[k], ex):
+                if amb:
+                    ck.float_ambiguous += 1
+                    return None
+                ck.tie_break('model %s: step %d differs from the code' % (name, k + 1), c, code=its, model=steps)
+                return None
+        if not vlib.close(code, steps[-1]):
+            if amb:
+                ck.float_ambiguous += 1
+                return None
+            ck.tie_break('model %s differs from the code' % name, c, code=code, model=steps[-1], steps=steps)
+            return None
+        return len(steps)
+
+    full, nsteps = [], {}
+    for i in chain:
+        c, cv, r = rec[i]
+        k = cmp_chain('biweight_location', c, r['biloc'], r['its'], m_chain[i])
+        nsteps[i] = k
+        if k is not None and ((k <= 2 and len(cv) <= 10) or (k <= 3 and len(cv) <= 3)):
+            full.append(i)
+    # the loop itself in exact arithmetic where that is affordable (it stops within 2 steps on a short vector)
+    m_full = dict(zip(full, batch('c19_biloc', [[A[i], None] for i in full])))
+    for i in full:
+        cmp_model(ck, 'biweight_location (exact loop)', rec[i][0], rec[i][2]['biloc'], m_full[i])
+    ck.cls('uw:biloc-chain', len(chain))
+    ck.cls('uw:biloc-exact-loop', len(full))
+    # biweight midvariance about the code's own centre (exact about the exact centre where that is affordable)
+    bvi = [i for i in chain if (len(rec[i][1]) <= N_BIVAR or i in big_sel) and not isinstance(rec[i][2]['biloc'], Err)
+           and finite(rec[i][2]['biloc']) and not isinstance(rec[i][2]['bivar'], Err)]
+    m_bv = dict(zip(bvi, batch('c19_bivar', [[A[i], rec[i][2]['biloc']] for i in bvi])))
+    bvfull = [i for i in full if nsteps[i] == 1 and len(rec[i][1]) <= 6]
+    m_bvfull = dict(zip(bvfull, batch('c19_bivar', [[A[i], None] for i in bvfull])))
+    ck.cls('uw:bivar-model', len(bvi))
+    ck.cls('uw:bivar-exact-centre', len(bvfull))
+
+    def cmp_bivar(name, c, code, mb):
         if isinstance(mb, list):
-            code_sq = r['bivar'] ** 2 if not isinstance(r['bivar'], Err) else r['bivar']
+            code_sq = code ** 2 if not isinstance(code, Err) else code
             if len(mb) == 1:
-                cmp_model(ck, 'biweight_midvariance^2', c, code_sq, mb[0])
+                cmp_model(ck, name + '^2', c, code_sq, mb[0])
             else:
-                res, s, fallback, formula = mb
-                cmp_model(ck, 'biweight_midvariance^2', c, code_sq, res,
-                          amb=lambda: float(s) < 1e-7 and (vlib.close(code_sq, fallback) or vlib.close(code_sq, formula)))
+                res, margin, fallback, formula = mb
+                cmp_model(ck, name + '^2', c, code_sq, res, amb=lambda: float(margin) < 1e-7)
         else:
-            cmp_model(ck, 'biweight_midvariance', c, r['bivar'], mb)
+            cmp_model(ck, name, c, code, mb)
+
+    for i, (c, cv, r) in enumerate(rec):
+        if i in m_triv:
+            cmp_model(ck, 'biweight_location', c, r['biloc'], m_triv[i])
+            cmp_bivar('biweight_midvariance', c, r['bivar'], bv_triv[i])
+        if i in m_bv:
+            cmp_bivar('biweight_midvariance', c, r['bivar'], m_bv[i])
+        if i in m_bvfull:
+            cmp_bivar('biweight_midvariance (exact centre)', c, r['bivar'], m_bvfull[i])
         cmp_model(ck, 'median_absolute_deviation', c, r['mad'], m_mad[i])
         cmp_model(ck, 'interquartile_range', c, r['iqr'], m_iqr[i])
         cmp_model(ck, 'gapper_scale', c, r['gapper'], m_gap[i])
@@ -463,21 +575,18 @@ def check_unweighted(ck, consts):
         cmp_model(ck, 'mean_squared_error', c, r['mse'], m_mse[i])
         cmp_model(ck, 'mean_squared_error(initial=0.5)', c, r['mse0'], m_mse0[i])
         cmp_model(ck, 'modal_location', c, r['mode'], m_mode[i])
-    # MAD without scaling, biweight with an explicit start
+    # MAD without scaling; biweight location / midvariance with an explicit start
     sub = rec[::7]
     m1 = batch('c19_mad', [[c['a'], False] for c, _, _ in sub])
-    m2 = batch('c19_biloc', [[c['a'], 0.25] for c, _, _ in sub])
-    m3 = batch('c19_bivar', [[c['a'], 0.25] for c, _, _ in sub])
-    for (c, cv, r), a1, a2, a3 in zip(sub, m1, m2, m3):
+    for (c, cv, r), a1 in zip(sub, m1):
         cmp_model(ck, 'median_absolute_deviation(scale_to_sd=False)', c, call(D.median_absolute_deviation, c['a'], scale_to_sd=False), a1)
-        cmp_model(ck, 'biweight_location(initial=0.25)', c, call(D.biweight_location, c['a'], initial=0.25), a2)
-        code = call(D.biweight_midvariance, c['a'], initial=0.25)
-        if isinstance(a3, list):
-            code_sq = code ** 2 if not isinstance(code, Err) else code
-            cmp_model(ck, 'biweight_midvariance(initial=0.25)^2', c, code_sq, a3[0],
-                      amb=lambda: len(a3) == 4 and float(a3[1]) < 1e-7)
-        else:
-            cmp_model(ck, 'biweight_midvariance(initial=0.25)', c, code, a3)
+    sub2 = [(c, cv) for c, cv, _ in sub if 2 <= len(cv) <= N_BIVAR]
+    its2 = [code_iterates(D, c['a'], 0.25, max_iter) for c, _ in sub2]
+    m2 = batch('c19_biloc_chain', [[c['a'], 0.25, it] for (c, _), it in zip(sub2, its2)])
+    m3 = batch('c19_bivar', [[c['a'], 0.25] for c, _ in sub2])
+    for (c, cv), it, a2, a3 in zip(sub2, its2, m2, m3):
+        cmp_chain('biweight_location(initial=0.25)', c, call(D.biweight_location, c['a'], initial=0.25), it, a2)
+        cmp_bivar('biweight_midvariance(initial=0.25)', c, call(D.biweight_midvariance, c['a'], initial=0.25), a3)
 
 
 def mode_index(cv):
@@ -580,7 +689,7 @@ def check_weighted(ck, consts):
                                     '%d cases' % (L, count))
     n_exh = len(rec)
     # random stream
-    n_cases = 500 if ck.tier == 'quick' else 14000
+    n_cases = 500 if ck.tier == 'quick' else 5000
     for i in range(n_cases):
         kind = rng.choice(KINDS)
         wkind = rng.choice(WKINDS)
@@ -632,7 +741,8 @@ def check_weighted(ck, consts):
                 continue
             if e < 0:
                 ck.violation('%s is negative' % nm, case, code=e, clause='C19_%s_nonneg' % nm)
-            if len(set(x for x, _ in ps)) == 1 and e != 0:
+            # the weighted MAD is an order statistic (exact); the weighted std is arithmetic on floats (DESIGN 2: 1e-9)
+            if len(set(x for x, _ in ps)) == 1 and (e != 0 if nm == 'wmad' else not close(e, 0, scale=float(ps[0][0]))):
                 ck.violation('%s is not zero on constant data' % nm, case, code=e, expected=0, clause='C19_%s_const' % nm)
             if nm == 'wstd' and nn >= 2:
                 exp = t_wvar(ps)
@@ -657,7 +767,8 @@ def check_weighted(ck, consts):
             continue
         cv = [x for x, _ in clean_weighted(a, w)]
         ins_ord.append([a, w, code_order(cv)])
-        if len(cv) <= 16:
+        # the model's own stable sort where numpy's arrangement of equal values happens to be the stable one
+        if len(cv) <= 16 and code_order(cv) == [int(j) for j in np.asarray(cv, dtype=float).argsort(kind='stable')]:
             idx_stable.append(i)
             ins_stable.append([a, w])
     m_ord = vlib.model_batch_parallel('c19_wmedian_ord', ins_ord)
@@ -736,11 +847,35 @@ def gen_width(rng, n):
     return rng.choice([1, 0, -3, 1.5, 2.5, 1.0, 0.0, 100.5])       # malformed
 
 
+def cmp_list(ck, name, case, code, model, tol=TOL, scale=1.0):
+    """element-wise; a model element None stands for a non-finite float (NaN / inf)"""
+    if isinstance(model, Err) and model.msg in ('decode', 'oracle contract', 'unknown entry'):
+        raise RuntimeError('%s: model rejected the request (%s) on %r' % (name, model.msg, case))
+    if isinstance(code, Err) or isinstance(model, Err):
+        ok = isinstance(code, Err) and isinstance(model, Err) and code.msg == model.msg
+    else:
+        ok = len(code) == len(model) and all(
+            (not finite(a_)) if b_ is None else (finite(a_) and abs(float(a_) - float(b_)) <= tol * max(1.0, abs(float(b_)), scale))
+            for a_, b_ in zip(code, model))
+    if not ok:
+        ck.tie_break('model %s differs from the code' % name, case, code=code, model=model)
+    return ok
+
+
+def zero_windows(pw, half):
+    """positions of the padded weight vector whose whole (edge-clipped) window carries no weight: 0/0 there"""
+    L = len(pw)
+    return [p for p in range(L) if not any(pw[max(0, p - half):min(L, p + half + 1)])]
+
+
 def check_smoothers(ck, consts):
     from cnvlib import smoothing as S
+    from scipy.signal import savgol_filter
     rng = ck.rng
-    n_cases = 300 if ck.tier == 'quick' else 9000
+    quick = ck.tier == 'quick'
+    n_cases = 150 if quick else 1400
     beta = consts['kaiser_beta']
+    sgargs = [consts['sg_window'], consts['sg_order'], consts['sg_niter']]
     cases = []
     for c in CORPUS.get('smooth', []):
         cases.append(('corpus', [float(x) for x in c['x']], c['width']))
@@ -750,9 +885,15 @@ def check_smoothers(ck, consts):
             cases.append(('equal', gen_values(rng, n, 'equal'), width))
     for i in range(n_cases):
         kind = rng.choice(KINDS)
-        n = gen_len(rng, ck.tier)
-        cases.append((kind, gen_values(rng, n, kind), gen_width(rng, n)))
-    wing_in, rm_in, ka_in, sg_in, plan_in = [], [], [], [], []
+        n = gen_len(rng, ck.tier, big=400 if (not quick or i % 40 == 0) else 150)
+        width = gen_width(rng, n)
+        # exact convolution with a normalised float window costs ~ n * window rational products: wide windows on long
+        # signals are kept at a low rate
+        w_est = min(n - 1, max(3, int(width) // 2 if width >= 2 else int(math.ceil(n * max(width, 0) / 2))))
+        if n * (2 * w_est + 1) > (2500 if quick else 5000) and rng.random() > (0.1 if quick else 0.05):
+            width = rng.choice([3, 5, 7, 9, 11, 0.05, 13.0])
+        cases.append((kind, gen_values(rng, n, kind), width))
+    wing_in, rm_in, ka_in, plan_in = [], [], [], []
     rec = []
     for kind, x, width in cases:
         n = len(x)
@@ -817,11 +958,14 @@ def check_smoothers(ck, consts):
         rec.append((case, r, fo))
         wing_in.append([max(n, 0), width, fo])
         rm_in.append([x, width, fo])
-        plan_in.append([n, [float(width), fo, consts['sg_window'], consts['sg_order'], consts['sg_niter']]])
+        plan_in.append([n, [float(width), fo] + sgargs])
     m_wing = vlib.model_batch('c19_wing', wing_in)
     m_rm = vlib.model_batch_parallel('c19_rolling_median', rm_in)
     m_plan = vlib.model_batch('c19_savgol_plan', plan_in)
-    for (case, r, fo), mw, mp in zip(rec, m_wing, m_plan):
+    # Savitzky-Golay: the whole iteration in exact arithmetic while it is short; beyond that the first and the last pass
+    # are replayed from the signal the library itself produced (the rationals of k exact passes grow with k)
+    sg_full, sg_full_in, sg_step, sg_first_in, sg_last_in = [], [], [], [], []
+    for i, ((case, r, fo), mw, mp) in enumerate(zip(rec, m_wing, m_plan)):
         x, width = case['x'], case['width']
         n = len(x)
         if isinstance(mw, Err):
@@ -829,26 +973,33 @@ def check_smoothers(ck, consts):
         else:
             window = [float(v) for v in np.kaiser(2 * int(mw) + 1, beta)]
         ka_in.append([x, [float(width), fo], window])
-        if isinstance(mp, Err):
-            sg_in.append([x, [float(width), fo, consts['sg_window'], consts['sg_order'], consts['sg_niter']], [], [[], []]])
+        args = [float(width), fo] + sgargs
+        if isinstance(mp, Err) or n < 2:
+            sg_full.append(i)
+            sg_full_in.append([x, args, [], [[], []]])
+            continue
+        wing, ww, order, n_iter = [int(v) for v in mp]
+        coeffs, el, er = sg_oracle(ww, order)
+        if n_iter <= 2 or (n_iter <= 4 and n * n_iter <= 160):
+            sg_full.append(i)
+            sg_full_in.append([x, args, coeffs, [el, er]])
         else:
-            wing, ww, order, n_iter = mp
-            coeffs, el, er = sg_oracle(int(ww), int(order))
-            sg_in.append([x, [float(width), fo, consts['sg_window'], consts['sg_order'], consts['sg_niter']], coeffs, [el, er]])
+            signal = S.check_inputs(np.asarray(x, float), width, False)[2]
+            first = savgol_filter(signal, ww, order, mode='interp')
+            prev = signal
+            for _ in range(n_iter - 1):
+                prev = savgol_filter(prev, ww, order, mode='interp')
+            sg_step.append((i, wing, [float(v) for v in first]))
+            sg_first_in.append([[float(v) for v in signal], coeffs, [el, er]])
+            sg_last_in.append([[float(v) for v in prev], coeffs, [el, er]])
     m_ka = vlib.model_batch_parallel('c19_kaiser', ka_in)
-    m_sg = vlib.model_batch_parallel('c19_savgol', sg_in)
+    m_sg = dict(zip(sg_full, vlib.model_batch_parallel('c19_savgol', sg_full_in)))
+    m_first = vlib.model_batch_parallel('c19_sg_pass', sg_first_in) if sg_first_in else []
+    m_last = vlib.model_batch_parallel('c19_sg_pass', sg_last_in) if sg_last_in else []
+    ck.cls('smooth:savgol-exact-iteration', len(sg_full))
+    ck.cls('smooth:savgol-first+last-pass', len(sg_step))
 
-    def cmp_list(name, case, code, model):
-        if isinstance(model, Err) and model.msg in ('decode', 'oracle contract', 'unknown entry'):
-            raise RuntimeError('%s: model rejected the request (%s) on %r' % (name, model.msg, case))
-        if isinstance(code, Err) or isinstance(model, Err):
-            ok = isinstance(code, Err) and isinstance(model, Err) and code.msg == model.msg
-        else:
-            ok = len(code) == len(model) and all(vlib.close(a_, b_) for a_, b_ in zip(code, model))
-        if not ok:
-            ck.tie_break('model %s differs from the code' % name, case, code=code, model=model)
-
-    for (case, r, fo), mw, mr, mk, ms in zip(rec, m_wing, m_rm, m_ka, m_sg):
+    for i, ((case, r, fo), mw, mr, mk) in enumerate(zip(rec, m_wing, m_rm, m_ka)):
         n = len(case['x'])
         if n >= 1:
             cw = r['wing']
@@ -857,9 +1008,17 @@ def check_smoothers(ck, consts):
                     ck.tie_break('model _width2wing differs from the code', case, code=cw, model=mw)
             elif int(cw) != mw:
                 ck.tie_break('model _width2wing differs from the code', case, code=cw, model=mw)
-        cmp_list('rolling_median', case, r['rm'], mr)
-        cmp_list('kaiser', case, r['ka'], mk)
-        cmp_list('savgol', case, r['sg'], ms)
+        cmp_list(ck, 'rolling_median', case, r['rm'], mr)
+        cmp_list(ck, 'kaiser', case, r['ka'], mk)
+        if i in m_sg:
+            cmp_list(ck, 'savgol', case, r['sg'], m_sg[i])
+    for (i, wing, first), mf, ml in zip(sg_step, m_first, m_last):
+        case, r, fo = rec[i]
+        sc = max(abs(v) for v in case['x'])
+        cmp_list(ck, 'savgol (first pass)', case, first, mf, scale=sc)
+        if not isinstance(ml, Err):
+            ml = ml[wing:len(ml) - wing]
+        cmp_list(ck, 'savgol (last pass, un-padded)', case, r['sg'], ml, scale=sc)
     # padding on its own
     pads = []
     for case, r, fo in rec[::5]:
@@ -873,36 +1032,53 @@ def check_smoothers(ck, consts):
             ck.tie_break('model _pad_array differs from the code', {'x': x, 'wing': w}, code=code, model=mp)
 
 
+def smooth_weights(rng, n, wkind):
+    if wkind == 'fewzeros':
+        w = gen_weights(rng, n, 'positive')
+        for j in range(0, n, 3):
+            if rng.random() < 0.5:
+                w[j] = 0.0          # isolated zeros only: never a whole window (open finding savgol-weighted-zero-window)
+        return w
+    return gen_weights(rng, n, wkind)
+
+
 def check_smoothers_weighted(ck, consts):
-    """savgol / kaiser with weights; zero-weight runs shorter than the window in the main stream"""
+    """savgol with weights (zero weights only in isolation in the main stream), check_inputs, convolve_weighted"""
     from cnvlib import smoothing as S
+    from scipy.signal import savgol_coeffs
     rng = ck.rng
-    n_cases = 120 if ck.tier == 'quick' else 4000
-    beta = consts['kaiser_beta']
-    rec, sg_in, plan_in = [], [], []
+    quick = ck.tier == 'quick'
+    n_cases = 55 if quick else 500
+    sgargs = [consts['sg_window'], consts['sg_order'], consts['sg_niter']]
+    rec, plan_in = [], []
     # the open known finding: every weight under a window is zero -> 0/0
     canon = {'x': [1.0, 5.0, 2.0, 8.0, 3.0, 9.0, 4.0, 7.0, 6.0, 0.0], 'w': [1.0, 1, 1, 0, 0, 0, 0, 0, 0, 0], 'width': 7}
-    y = call(S.savgol, np.asarray(canon['x']), canon['width'], weights=np.asarray(canon['w'], float))
+    y = y_canon = call(S.savgol, np.asarray(canon['x']), canon['width'], weights=np.asarray(canon['w'], float))
     ck.count(['smooth-w-canonical', canon], nontrivial=True, cls='smoothw:zero-window')
     if isinstance(y, Err) or not all(finite(v) for v in y):
         ck.violation('savgol with weights returns a non-finite value where every weight under the window is zero', canon,
                      code=y, clause='C19_length', sig='savgol-weighted-zero-window')
     for i in range(n_cases):
         kind = rng.choice(KINDS)
-        n = gen_len(rng, ck.tier, big=200)
+        n = gen_len(rng, ck.tier, big=150 if not quick else 60)
+        if quick and n > 60 and i % 10:
+            n = rng.randint(8, 60)
         x = gen_values(rng, n, kind)
         width = gen_width(rng, n)
         valid = (0 < width < 1) or (width >= 2 and int(width) == width)
         if not valid:
             width = 7
         wkind = rng.choice(['positive', 'equal', 'smallint', 'dominant', 'fewzeros'])
-        if wkind == 'fewzeros':
-            w = gen_weights(rng, n, 'positive')
-            for j in range(0, n, 3):
-                if rng.random() < 0.5:
-                    w[j] = 0.0          # isolated zeros only: never a whole window
-        else:
-            w = gen_weights(rng, n, wkind)
+        w = smooth_weights(rng, n, wkind)
+        if n >= 2:
+            # stay out of the open finding's region: no window of the mirrored, rolled-off weights without any weight
+            for _ in range(n):
+                _x, wing_, _s, pw_ = S.check_inputs(np.asarray(x, float), width, False, np.asarray(w, float))
+                half_ = min(consts['sg_window'], 2 * wing_ + 1) // 2
+                zw = zero_windows([float(v) for v in pw_], half_)
+                if not zw:
+                    break
+                w[min(n - 1, max(0, zw[0] - wing_))] = 1.0
         case = {'x': x, 'w': w, 'width': width, 'kind': kind + '/' + wkind}
         ck.count(['smooth-w', x, w, width], nontrivial=n >= 4 and len(set(x)) > 1, cls='smoothw:' + wkind)
         y = call(S.savgol, np.asarray(x, float), width, weights=np.asarray(w, float))
@@ -916,31 +1092,168 @@ def check_smoothers_weighted(ck, consts):
             ck.violation('savgol with weights does not reproduce a constant signal', case, code=y, expected=x[0], clause='C19_const')
         fo = frac_oracle(n, width)
         rec.append((case, y, fo))
-        plan_in.append([n, [float(width), fo, consts['sg_window'], consts['sg_order'], consts['sg_niter']]])
+        plan_in.append([n, [float(width), fo] + sgargs])
+    # the canonical case of the open finding goes through the model comparison too (the model yields None exactly there)
+    rec.append((dict(canon, kind='canonical-zero-window'), y_canon, 0))
+    plan_in.append([len(canon['x']), [float(canon['width']), 0] + sgargs])
     m_plan = vlib.model_batch('c19_savgol_plan', plan_in)
-    for (case, y, fo), mp in zip(rec, m_plan):
-        args = [float(case['width']), fo, consts['sg_window'], consts['sg_order'], consts['sg_niter']]
-        if isinstance(mp, Err):
-            sg_in.append([case['x'], case['w'], args, []])
+    full, full_in, steps, step_in, ci_in, ci_code = [], [], [], [], [], []
+    for i, ((case, y, fo), mp) in enumerate(zip(rec, m_plan)):
+        x, w, width = case['x'], case['w'], case['width']
+        n = len(x)
+        args = [float(width), fo] + sgargs
+        if isinstance(mp, Err) or n < 2:
+            full.append(i)
+            full_in.append([x, w, args, []])
+            continue
+        wing, ww, order, n_iter = [int(v) for v in mp]
+        coeffs = [float(c) for c in savgol_coeffs(ww, order)]
+        # check_inputs: wing, mirrored signal, mirrored + rolled-off weights
+        cx, cwing, csig, cwts = S.check_inputs(np.asarray(x, float), width, False, np.asarray(w, float))
+        ci_in.append([x, w, float(width), fo])
+        ci_code.append((case, int(cwing), [float(v) for v in csig], [float(v) for v in cwts]))
+        if n_iter == 1 or (n_iter == 2 and n <= 40):
+            full.append(i)
+            full_in.append([x, w, args, coeffs])
         else:
-            from scipy.signal import savgol_coeffs
-            sg_in.append([case['x'], case['w'], args, [float(c) for c in savgol_coeffs(int(mp[1]), int(mp[2]))]])
-    m_sg = vlib.model_batch_parallel('c19_savgol_w', sg_in)
-    for (case, y, fo), ms in zip(rec, m_sg):
+            # every iteration replayed from the (signal, weights) the code itself produced
+            yk, wk = csig, cwts
+            chain = []
+            for k in range(n_iter):
+                y2, w2 = S.convolve_weighted(np.asarray(coeffs), yk, wk, 1)
+                if k in (0, n_iter - 1) or (n_iter <= 3) or k == n_iter // 2:
+                    chain.append(([float(v) for v in yk], [float(v) for v in wk], [float(v) for v in y2], [float(v) for v in w2]))
+                yk, wk = y2, w2
+            if not all(finite(v) for st in chain for v in st[0]):
+                ck.cls('smoothw:stepwise-skipped-nonfinite-intermediate')
+                continue
+            for (a_, b_, c_, d_) in chain:
+                steps.append((i, c_, d_, wing, False))
+                step_in.append([coeffs, a_, b_, 1])
+            steps[-1] = steps[-1][:4] + (True,)
+    m_full = dict(zip(full, vlib.model_batch_parallel('c19_savgol_w', full_in)))
+    m_step = vlib.model_batch_parallel('c19_conv_weighted', step_in) if step_in else []
+    m_ci = vlib.model_batch_parallel('c19_check_inputs', ci_in) if ci_in else []
+    ck.cls('smoothw:savgol-exact-iteration', len(full))
+    ck.cls('smoothw:savgol-stepwise', len(set(s_[0] for s_ in steps)))
+    for (case, cwing, csig, cwts), mc in zip(ci_code, m_ci):
+        if isinstance(mc, Err):
+            ck.tie_break('model check_inputs differs from the code', case, code=cwing, model=mc)
+            continue
+        if int(mc[0]) != cwing:
+            ck.tie_break('model check_inputs: wing differs from the code', case, code=cwing, model=mc[0])
+            continue
+        cmp_list(ck, 'check_inputs (signal)', case, csig, mc[1])
+        cmp_list(ck, 'check_inputs (weights)', case, cwts, mc[2])
+    for i in full:
+        case, y, fo = rec[i]
+        ms = m_full[i]
         if isinstance(ms, Err) and ms.msg in ('decode', 'oracle contract', 'unknown entry'):
             raise RuntimeError('savgol_w: model rejected the request (%s) on %r' % (ms.msg, case))
-        if ms is None:
-            if not isinstance(y, Err) and all(finite(v) for v in y):
-                ck.tie_break('model savgol(weights) divides by zero, the code does not', case, code=y, model=ms)
-            continue
-        if isinstance(y, Err) or isinstance(ms, Err):
-            ok = isinstance(y, Err) and isinstance(ms, Err) and y.msg == ms.msg
+        # normalisers can be tiny (negative Savitzky-Golay lobes): compare at the tolerance scaled by the data range
+        cmp_list(ck, 'savgol(weights)', case, y, ms, tol=1e-6, scale=max(abs(v) for v in case['x']))
+    for (i, y2, w2, wing, last), ms in zip(steps, m_step):
+        case, y, fo = rec[i]
+        if isinstance(ms, Err):
+            raise RuntimeError('conv_weighted: model rejected the request (%s) on %r' % (ms.msg, case))
+        sc = max(abs(v) for v in case['x'])
+        cmp_list(ck, 'convolve_weighted step inside savgol (signal)', case, y2, ms[0], tol=1e-6, scale=sc)
+        cmp_list(ck, 'convolve_weighted step inside savgol (weights)', case, w2, ms[1], tol=1e-6)
+        if last and not isinstance(y, Err):
+            cmp_list(ck, 'savgol(weights) = last iteration un-padded', case, y, ms[0][wing:len(ms[0]) - wing], tol=1e-6, scale=sc)
+
+
+def check_helpers(ck, consts):
+    """convolve_weighted / convolve_unweighted / guess_window_size as public functions"""
+    from cnvlib import smoothing as S, descriptives as D
+    rng = ck.rng
+    quick = ck.tier == 'quick'
+    beta = consts['kaiser_beta']
+    # ---- convolve_unweighted(window, padded signal, wing, n_iter) and convolve_weighted(window, signal, weights, n_iter)
+    cu_in, cu_code, cw_in, cw_code = [], [], [], []
+    for i in range(40 if quick else 400):
+        n = rng.randint(4, 40)
+        wing = rng.randint(1, min(6, n - 1))
+        x = gen_values(rng, n, rng.choice(KINDS))
+        kind = rng.choice(['kaiser', 'box', 'random', 'unnormalised'])
+        if kind == 'kaiser':
+            window = [float(v) for v in np.kaiser(2 * wing + 1, beta)]
+        elif kind == 'box':
+            window = [1.0] * (2 * wing + 1)
+        elif kind == 'random':
+            window = [rng.randint(1, 64) / 64 for _ in range(2 * wing + 1)]
         else:
-            # normalisers can be tiny (negative Savitzky-Golay lobes): compare at the tolerance scaled by the data range
-            sc = max(1.0, max(abs(v) for v in case['x']))
-            ok = len(y) == len(ms) and all(abs(a_ - float(b_)) <= 1e-6 * max(sc, abs(float(b_))) for a_, b_ in zip(y, ms))
-        if not ok:
-            ck.tie_break('model savgol(weights) differs from the code', case, code=y, model=ms)
+            window = [float(rng.randint(1, 5)) for _ in range(2 * wing + 1)]
+        n_iter = rng.choice([1, 1, 2, 3])
+        signal = [float(v) for v in S._pad_array(np.asarray(x, float), wing)]
+        case = {'x': x, 'wing': wing, 'window': window, 'n_iter': n_iter, 'kind': kind}
+        ck.count(['conv', case], nontrivial=len(set(x)) > 1, cls='conv:' + kind)
+        y = call(S.convolve_unweighted, np.asarray(window, float), np.asarray(signal, float), wing, n_iter)
+        if isinstance(y, Err) or len(y) != n or not all(finite(v) for v in y):
+            ck.violation('convolve_unweighted does not return one finite value per input value', case, code=y, clause='C19_length')
+        else:
+            lo, hi = min(x), max(x)
+            slack = TOL * max(1.0, abs(lo), abs(hi))
+            # interior outputs are convex combinations of the signal (non-negative window); the zero-padded "same"
+            # convolution only touches the outermost half-window of the *padded* signal when n_iter = 1
+            if n_iter == 1 and not all(lo - slack <= v <= hi + slack for v in y):
+                ck.violation('convolve_unweighted with a non-negative window leaves the input range', case, code=[min(y), max(y)],
+                             expected=[lo, hi], clause='C19_kaiser_range')
+            if len(set(x)) == 1 and n_iter == 1 and not all(close(v, x[0], scale=0) for v in y):
+                ck.violation('convolve_unweighted does not reproduce a constant signal', case, code=y, expected=x[0], clause='C19_const')
+        cu_in.append([window, signal, wing, n_iter])
+        cu_code.append((case, y))
+        if n_iter <= 2:
+            w = gen_weights(rng, n, rng.choice(['positive', 'equal', 'smallint']))
+            pw = [float(v) for v in S._pad_array(np.asarray(w, float), wing)]
+            if len(pw) == len(signal):
+                r = S.convolve_weighted(np.asarray(window, float), np.asarray(signal, float), np.asarray(pw, float), n_iter)
+                cw_in.append([window, signal, pw, n_iter])
+                cw_code.append((dict(case, w=pw), [float(v) for v in r[0]], [float(v) for v in r[1]]))
+    m_cu = vlib.model_batch_parallel('c19_conv_unweighted', cu_in)
+    for (case, y), m in zip(cu_code, m_cu):
+        cmp_list(ck, 'convolve_unweighted', case, y, m, scale=max(abs(v) for v in case['x']))
+    m_cw = vlib.model_batch_parallel('c19_conv_weighted', cw_in) if cw_in else []
+    for (case, y, w), m in zip(cw_code, m_cw):
+        if isinstance(m, Err):
+            raise RuntimeError('conv_weighted: model rejected the request (%s) on %r' % (m.msg, case))
+        cmp_list(ck, 'convolve_weighted (signal)', case, y, m[0], tol=1e-6, scale=max(abs(v) for v in case['x']))
+        cmp_list(ck, 'convolve_weighted (weights)', case, w, m[1], tol=1e-6)
+    # ---- guess_window_size: the scale estimate and n ** (4/5) are the code's own floats
+    gw_in, gw_code = [], []
+    for i in range(60 if quick else 600):
+        n = rng.choice([2, 3, 4, 5, 8, 13, 30, 77, 150, 400, rng.randint(2, 400)])
+        x = gen_values(rng, n, rng.choice(KINDS))
+        sc = rng.choice([1.0, 1 / 8, 1 / 64, 1 / 512])        # small spreads: widths between 3 and n
+        x = [v * sc for v in x]
+        weighted = rng.random() < 0.4
+        if weighted:
+            w = gen_weights(rng, n, rng.choice(['positive', 'equal', 'smallint']))
+            sd = call(D.weighted_std, np.asarray(x, float), np.asarray(w, float))
+            g_ = call(S.guess_window_size, np.asarray(x, float), np.asarray(w, float))
+        else:
+            w = None
+            sd = call(D.biweight_midvariance, x)
+            g_ = call(S.guess_window_size, np.asarray(x, float))
+        case = {'x': x, 'w': w}
+        ck.count(['guess', case], nontrivial=True, cls='guess_window_size')
+        if isinstance(sd, Err) or isinstance(g_, Err) or not finite(sd):
+            ck.violation('guess_window_size fails on a finite signal', case, code=g_, clause='C19_wing')
+            continue
+        if not (min(3, n) <= g_ <= n):
+            ck.violation('guess_window_size: window wider than the signal (or below the minimum)', case, code=g_,
+                         expected=[min(3, n), n], clause='C19_wing')
+        gw_in.append([n, sd, float(n ** (4 / 5))])
+        gw_code.append((case, g_))
+    m_gw = vlib.model_batch('c19_guess_window', gw_in)
+    for (case, g_), m in zip(gw_code, m_gw):
+        if isinstance(m, Err):
+            raise RuntimeError('guess_window: model rejected the request (%s)' % m.msg)
+        if int(g_) != int(m[0]):
+            if float(m[1]) < 1e-7:
+                ck.float_ambiguous += 1
+            else:
+                ck.tie_break('model guess_window_size differs from the code', case, code=g_, model=m[0])
 
 
 # ----------------------------------------------------------------------------
@@ -978,7 +1291,7 @@ def check_corpus_expect(ck):
 def get_consts():
     c = vlib.model_call('c19_consts', [])
     return {'kaiser_beta': int(c[0]), 'sg_window': int(c[1]), 'sg_order': int(c[2]), 'sg_niter': int(c[3]),
-            'wmedian_eps': F(c[4])}
+            'wmedian_eps': F(c[4]), 'biloc_max_iter': int(c[5]), 'biloc_eps': F(c[6])}
 
 
 def run(ck, scratch):
@@ -987,7 +1300,10 @@ def run(ck, scratch):
                'small integers, NaN weight, unequal lengths) x widths (fractions, integers incl. wider than the signal, malformed); '
                'exhaustive weighted median on all (value, weight) vectors of length <= 4 over {0,1,2,3} x {0,1,2}; every case: code '
                'output checked against the property clauses in exact Fractions + textbook formulas, then against the extracted Coq '
-               'model (1e-9 relative). non-trivial = at least 3 values, not all equal (smoothers: >= 4 values, valid width); distinct by case hash')
+               'model (1e-9 relative). Iterated rational computations (biweight location, Savitzky-Golay passes, weighted convolution) '
+               'are replayed step by step from the intermediate floats of the code itself (observed through max_iter=1 / n_iter=1 / the '
+               'library call) and exactly end-to-end where the rationals stay small; the rational biweight models run on all short '
+               'vectors and a sample of long ones. non-trivial = at least 3 values, not all equal (smoothers: >= 4 values, valid width); distinct by case hash')
     ck.exhaustive = True
     ck.explanation = 'exhaustive: true refers to the enumerated weighted-median scope only (coverage.exhaustive_scope)'
     ck.unproved_remainder = list(UNPROVED)
@@ -996,11 +1312,18 @@ def run(ck, scratch):
     load_corpus()
     consts = get_consts()
     np.seterr(all='ignore')
-    check_corpus_expect(ck)
-    check_weighted(ck, consts)
-    check_unweighted(ck, consts)
-    check_smoothers(ck, consts)
-    check_smoothers_weighted(ck, consts)
+    import time
+    phases = {}
+    for f in (check_corpus_expect, check_weighted, check_unweighted, check_smoothers, check_smoothers_weighted, check_helpers):
+        t0 = time.time()
+        if f is check_corpus_expect:
+            f(ck)
+        else:
+            f(ck, consts)
+        phases[f.__name__] = round(time.time() - t0, 1)
+    ck.extra['phase_seconds'] = phases
+    if os.environ.get('C19_TIMING'):
+        print('C19 phases:', phases)
 
 
 UNPROVED = [
@@ -1008,6 +1331,19 @@ UNPROVED = [
     'Kaiser / Savitzky-Golay window coefficients and the savgol_filter edge fit are oracle vectors (np.kaiser, scipy.signal); theorems hold for every window summing to 1 (Kaiser: non-negative)',
     'square roots (biweight_midvariance, weighted_std, sqrt(pi) in gapper_scale) are outside the model: the squared quantities are modelled and proved',
     'float rounding: theorems are about exact rational arithmetic; code and model are compared at 1e-9',
+    'weighted median: "at most half the weight on either side" is proved exactly only when no running sum of the arranged weights lies '
+    'within the rounding allowance n*2^-52*W of W/2 without being W/2 (C19_wmedian_halves), otherwise within that allowance '
+    '(C19_wmedian_halves_tol; witness C19_wmedian_halves_strict_refuted); such near-tie inputs are counted float_ambiguous here',
+    'weighted median: the arrangement of equal values is taken from numpy (contract: a permutation sorted by value); the result is not '
+    'invariant under permuting equal values with different weights when a zero weight sits on the half (C19_wmedian_perm_refuted)',
+    'weighted median with equal weights = median is proved for n^2 * 2^-52 < 1/2 (n < 2^25.5); beyond that the allowance exceeds half a weight',
+    'IQR and gapper: rescaling proved for k >= 0 (MAD, Q_n, variance for every k); gapper = its published sum formula and weighted MAD '
+    'shift/scale are sampled against the Fraction oracles, not proved',
+    'biweight location is not exactly scale-equivariant (absolute epsilon 0.001 in the scale floor and the stop rule); the property does not claim it',
+    'weighted Savitzky-Golay: finite outputs proved (constant reproduced, one per input); finiteness itself fails where every weight under a '
+    'window is 0 (open finding savgol-weighted-zero-window)',
+    'exact rational biweight iterations are compared through a chain replayed from the iterates of the code (and exactly end-to-end on short '
+    'vectors that stop within 2 steps): the loop composition on long vectors is sampled, not exhaustively compared',
 ]
 
 
